@@ -56,4 +56,10 @@ try:
                 if viol: break
 finally:
     sh("git -C /repo worktree remove --force %s; rm -rf %s" % (wt, wt))
+try:
+    s = json.load(open(os.path.join(ROOT, "seeded", "sites.json"))).get(sid)
+    if s:
+        meta["site"], meta["needs"], meta["history"] = s
+except Exception:
+    pass
 json.dump(meta, open(os.path.join(dst, "meta.json"), "w"), indent=1)
